@@ -16,6 +16,44 @@ structure SpecOK (sp : Spec) : Prop where
   zeroUnl : sp.bound = .zero → sp.unlimited = true
   /-- the capacity rule never promises more than the slots that exist -/
   capLe : sp.unlimited = false → ∀ L, capacityOf sp L ≤ 2 ^ L * sp.maxCount
+  /-- the capacity rule grows with the bucket count (what `MOMO_CHECK(nextCapacity > newCapacity)` in `pvAddGrow`,
+      HashSet.h:1140, tests) -/
+  capMono : ∀ L, capacityOf sp L < capacityOf sp (L + 1)
+
+theorem div_lt_double (Y den : Nat) (hd : 0 < den) (h : den ≤ 2 * Y) : Y / den < 2 * Y / den := by
+  rw [Nat.lt_iff_add_one_le, Nat.le_div_iff_mul_le hd]
+  have h1 := Nat.div_mul_le_self Y den
+  by_cases hY : Y < den
+  · rw [Nat.div_eq_of_lt hY]; omega
+  · rw [Nat.add_mul]; omega
+
+/-- the capacity rules of the library grow strictly with the bucket count: `HashBucketBase::CalcCapacity` for every
+    `maxCount`, the load-factor rules `floor(n·maxCount·num/den)` whenever the smallest table (one bucket) already has a load
+    factor of at least one half of an item (`den ≤ 2·maxCount·num`; 11/12, 5/6, 13/14 with `maxCount ≥ 1`) -/
+theorem capacityOf_mono (sp : Spec)
+    (h : ∀ num den, sp.cap = .ratio num den → 0 < den ∧ den ≤ 2 * (sp.maxCount * num)) :
+    ∀ L, capacityOf sp L < capacityOf sp (L + 1) := by
+  intro L
+  unfold capacityOf
+  simp only [Nat.pow_succ]
+  have hN : 0 < 2 ^ L := Nat.two_pow_pos L
+  generalize 2 ^ L = N at hN
+  cases hc : sp.cap with
+  | base =>
+    simp only
+    split
+    · have e : N * 2 * 5 = 2 * (N * 5) := by omega
+      rw [e]; exact div_lt_double _ _ (by decide) (by omega)
+    · split <;> omega
+  | ratio num den =>
+    simp only
+    obtain ⟨hd, hle⟩ := h num den hc
+    have e : N * 2 * sp.maxCount * num = 2 * (N * sp.maxCount * num) := by ac_rfl
+    rw [e]
+    apply div_lt_double _ _ hd
+    have : sp.maxCount * num ≤ N * sp.maxCount * num := by
+      rw [Nat.mul_assoc]; exact Nat.le_mul_of_pos_left _ hN
+    omega
 
 /-- home bucket of a key in a generation -/
 def homeOf (hf : Nat → Nat) (g : Gen) (k : Nat) : Nat := start g.L (hf k)
